@@ -254,7 +254,7 @@ def numbers_from_words(words, path):
 def int_from_number(number, words, path):
     if isinstance(number, int):
         return number
-    if isinstance(number, float) and round(number) == number:
+    if isinstance(number, float) and math.isfinite(number) and round(number) == number:
         return int(number)
     raise RuntimeError(
         'Error interpreting %s="%s" as an integer expression%s'
